@@ -172,6 +172,7 @@ def run(ctx):
     targeted(ctx)
     multi_epoch(ctx)
     nonfinite_inputs(ctx)
+    reset_histories(ctx)
 
 
 def _bounds_owner(est):
@@ -346,3 +347,64 @@ def nonfinite_inputs(ctx):
             ctx.issue("violation", f"{name}:validate_data-accepts-{'nan' if bad != bad else 'inf'}-then-fit-raises:{exc_enum(e)}",
                       f"validate_data accepted a matrix with a {bad} entry and fit raised {e!r}", desc)
         cov.case(("nonfinite", name, fam.spec, desc["X"]), True)
+
+
+def reset_histories(ctx):
+    """training under a vetoing reset function in every match-tracking mode — bare modules, FusionART,
+    DualVigilanceART, TopoART, and the same compounds as A-side of SimpleARTMAP (class vetoes): every exit path of
+    the search (resonance after vetoes, abandoned search under MT1, exhausted candidates) must stay total, and the
+    model must accept a further sample and a prediction afterwards"""
+    cov = ctx.cov
+    classes = specs.ELEM + ["FusionART", "DualVigilanceART", "TopoART"]
+    compounds = ["TopoART", "DualVigilanceART", "FusionART"]
+    Nmain, Nhost = ctx.scale(165, 3300), ctx.scale(150, 3000)
+    for i in range(Nmain + Nhost):
+        r = gen.rng_for(ctx.seed, "C04-reset", i)
+        forced_host = i >= Nmain
+        cls = classes[i % len(classes)] if not forced_host else compounds[i % 3]
+        mode = MODES[(i // len(classes)) % 5] if not forced_host else MODES[(i // 3) % 5]
+        eps = r.choice([0.0, 2.0 ** -10, 0.125])
+        n = r.randint(3, 12)
+        fam, rows = families.build(r, cls, n, mode=mode, eps=eps)
+        n = len(rows)
+        X = rows.arrs["X"]
+        hosted = i % 3 == 2 or forced_host
+        if hosted and cls == "TopoART" and (forced_host or r.random() < 0.6):
+            fam.spec["tau"] = 1000          # a pruning A-side under a host is known finding F37; most hosted cases do not prune
+        vt = gen.veto_table(r, n, n + 2)
+        y = gen.labels(r, n, r.randint(2, 3))
+        desc = dict(fam.describe(), rows=rows.tolist(), mode=mode, eps=eps, hosted=hosted, veto=None if hosted else vt, y=y.tolist() if hosted else None)
+        stage = "fit"
+        try:
+            state = {"i": -1}
+            if hosted:
+                est = make({"cls": "SimpleARTMAP", "module_a": fam.spec})
+                with quiet(), np.errstate(all="ignore"):
+                    est.fit(X, y, match_tracking=mode, epsilon=eps)
+                    stage = "partial_fit"
+                    est.partial_fit(X[:2], y[:2][::-1].copy(), match_tracking=mode, epsilon=eps)
+                    stage = "predict"
+                    est.predict(X[: min(n, 4)])
+            else:
+                est = fam.make()
+                o_step = est.step_fit
+
+                def step(x, *a, _o=o_step, **kw):
+                    state["i"] += 1
+                    return _o(x, *a, **kw)
+                object.__setattr__(est, "step_fit", step)
+                reset = lambda i_, w_, c_, params=None, cache=None: not vt[state["i"] % n][int(c_) % (n + 2)]
+                with quiet(), np.errstate(all="ignore"):
+                    est.fit(X, match_reset_func=reset, match_tracking=mode, epsilon=eps)
+                    if fam.has_pfit:
+                        stage = "partial_fit"
+                        est.partial_fit(X[:2], match_reset_func=reset, match_tracking=mode, epsilon=eps)
+                    stage = "predict"
+                    est.predict(X[: min(n, 4)])
+            if not finite_weights(est):
+                ctx.issue("violation", f"{cls}+reset:non-finite-weight", f"NaN/inf in learned weights (mode {mode})", desc)
+            cov.hit(f"reset-history:{mode}:{'hosted' if hosted else 'callback'}")
+        except Exception as e:
+            ctx.issue("violation", f"{'SimpleARTMAP/' if hosted else ''}{cls}.{stage}+reset:{exc_enum(e)}",
+                      f"{stage} under a vetoing reset function (mode {mode}) raised {e!r} on data accepted by validate_data", desc)
+        cov.case(("reset", cls, fam.spec, desc["rows"], mode, eps, hosted), True)
